@@ -87,7 +87,7 @@ SCI == Agg("s_ci", <<TChar, TInt>>, FALSE, FALSE, 0)
 
 BfBase == << <<"char", 1, TRUE>>, <<"short", 2, TRUE>>, <<"int", 4, TRUE>>, <<"uint", 4, FALSE>>, <<"long", 8, TRUE>>,
              <<"uchar", 1, FALSE>>, <<"ushort", 2, FALSE>>, <<"ulong", 8, FALSE>>, <<"bool", 1, FALSE>>, <<"enum", 4, TRUE>> >>
-BfWidths == {1, 2, 3, 7, 8, 9, 15, 16, 17, 31, 32, 33, 63, 64}
+BfWidths == {1, 3, 7, 8, 9, 15, 16, 17, 31, 32, 33, 63, 64}
 Bfs == UNION { { BfM(BfBase[i][1], BfBase[i][2], BfBase[i][3], w, TRUE)
                    : w \in {x \in BfWidths : x <= BfBase[i][2] * 8 /\ (BfBase[i][1] = "bool" => x = 1)} }
                : i \in DOMAIN BfBase }
@@ -111,17 +111,16 @@ Nested == { Arr("char3", TChar, 3), Arr("int2", TInt, 2), Arr("char5", TChar, 5)
             Anon(Agg("anon_su", <<TChar, Anon(Agg("anon_u2", <<TShort, TLong>>, FALSE, TRUE, 0))>>, FALSE, FALSE, 0)),
             Anon(Agg("anon_bf", <<BfM("int", 4, TRUE, 5, TRUE), BfM("long", 8, TRUE, 33, TRUE)>>, FALSE, FALSE, 0)),
             AlignAs("al8_char", 8), AlignAs("al16_char", 16) }
-Unnamed == { BfM("int", 4, TRUE, 3, FALSE), BfM("int", 4, TRUE, 0, FALSE), BfM("long", 8, TRUE, 33, FALSE),
-             BfM("char", 1, TRUE, 0, FALSE) }
+Unnamed == { BfM("int", 4, TRUE, 3, FALSE), BfM("int", 4, TRUE, 0, FALSE), BfM("long", 8, TRUE, 33, FALSE) }
 TinyIds == {"char", "long", "ldouble", "char3", "s_ci", "anon_su", "bf_int_3", "bf_uint_7", "bf_long_33", "bf_bool_1",
             "bf_char_8", "bf_long_64", "s_c5"}
 Targets == IF Tiny THEN {m \in Scalars \cup Nested \cup Bfs : m.id \in TinyIds} ELSE Scalars \cup Nested \cup Bfs
 (* neighbours inside the aggregate, before and after the target *)
 None == Base("none", "none", 0, 1)
 Before == IF Tiny THEN {None, TChar, BfM("int", 4, TRUE, 3, TRUE)}
-          ELSE {None, TChar, TLong, BfM("int", 4, TRUE, 3, TRUE), BfM("uchar", 1, FALSE, 5, TRUE)} \cup Unnamed
+          ELSE {None, TChar, BfM("int", 4, TRUE, 3, TRUE), BfM("uchar", 1, FALSE, 5, TRUE)} \cup Unnamed
 After == IF Tiny THEN {None, TChar, BfM("uint", 4, FALSE, 7, TRUE)}
-         ELSE {None, TChar, TShort, BfM("uint", 4, FALSE, 7, TRUE), BfM("long", 8, TRUE, 9, TRUE)}
+         ELSE {None, TChar, BfM("uint", 4, FALSE, 7, TRUE), BfM("long", 8, TRUE, 9, TRUE)}
 Kinds == {"struct", "packed", "union"}
 
 Members(b, t, a) == SelectSeq(<<b, t, a>>, LAMBDA m : m.k # "none")
@@ -135,10 +134,6 @@ InDomain(b, t, a, kind) ==
   /\ (kind = "union") => b.named /\ (b.k = "none" \/ a.k = "none")     \* unions: at most one neighbour
   /\ \E i \in DOMAIN ms : ms[i].k # "bf" \/ ms[i].named
 Shape(b, t, a, kind) == Agg("T", Members(b, t, a), kind = "packed", kind = "union", 0)
-Shapes == { s \in { Shape(x[1], x[2], x[3], x[4]) :
-                      x \in { y \in Before \X Targets \X After \X Kinds : InDomain(y[1], y[2], y[3], y[4]) } } :
-              ~CrossesUnit(s) }
-
 ----------------------------------------------------------------------------
 (* Paths.  A path is [hops, pos, ty]: hops = <<[h |-> "m" | "i", i |-> index]>>,
    pos = bit position in the object, ty = the designated (sub)object's type. *)
@@ -151,7 +146,7 @@ PathsOf(ty, pos, hops) ==
                 PathsOf(ty.sub[1], pos + IdxPat(ty.n)[x] * ty.sub[1].sz * 8,
                         Append(hops, [h |-> "i", i |-> IdxPat(ty.n)[x]]))])
     [] ty.k = "agg" ->
-         (IF hops = <<>> THEN <<>> ELSE << [hops |-> hops, pos |-> pos, ty |-> ty] >>) \o
+         (IF hops = <<>> \/ ty.anon THEN <<>> ELSE << [hops |-> hops, pos |-> pos, ty |-> ty] >>) \o
          Cat([j \in DOMAIN ty.sub |->
                 IF ty.sub[j].k = "bf" /\ (~ty.sub[j].named \/ ty.sub[j].w = 0) THEN <<>>
                 ELSE PathsOf(ty.sub[j], pos + ty.pl[j].pos, Append(hops, [h |-> "m", i |-> j - 1]))])
@@ -203,6 +198,7 @@ Pack(f(_)) == f(0) + 2 * f(1) + 4 * f(2) + 8 * f(3) + 16 * f(4) + 32 * f(5) + 64
 SetBits(m, pos, w, v) ==
   MkSeq(Len(m), LAMBDA j :
      IF (j - 1) * 8 + 7 < pos \/ (j - 1) * 8 >= pos + w THEN m[j]
+     ELSE IF m[j] < 0 /\ ((j - 1) * 8 < pos \/ (j - 1) * 8 + 7 >= pos + w) THEN -1     \* part of an unspecified byte
      ELSE LET b(k) == LET i == (j - 1) * 8 + k IN IF i >= pos /\ i < pos + w THEN Bit(v, i - pos) ELSE Bit(m, i)
           IN Pack(b))
 (* the 8-byte value of bits [pos, pos+w), sign- or zero-extended *)
@@ -250,8 +246,14 @@ vars == <<T, mem, prev, last, n, ps, vm, sid>>
 InitMem(t) == [pre |-> Fill("pre", GuardSize), obj |-> Fill("obj", t.sz), post |-> Fill("post", GuardSize),
                src |-> Fill("src", t.sz)]
 NoStep == [act |-> "init", pi |-> 0, v |-> "", op |-> "", res |-> <<>>, pos |-> 0, w |-> 0, unspec |-> FALSE]
-ShapeSeq == SetToSeq(Shapes)
-Init == /\ \E i \in DOMAIN ShapeSeq : (i * 7919 + Seed) % Stride = 0 /\ sid = i /\ T = ShapeSeq[i]
+BS == SetToSeq(Before)   TS == SetToSeq(Targets)   AS == SetToSeq(After)   KS == <<"struct", "packed", "union">>
+NShapes == Len(BS) * Len(TS) * Len(AS) * 3
+Init == /\ \E bi \in DOMAIN BS, ti \in DOMAIN TS, ai \in DOMAIN AS, ki \in 1..3 :
+             LET i == (((bi - 1) * Len(TS) + ti - 1) * Len(AS) + ai - 1) * 3 + ki IN
+             /\ (i * 7919 + Seed) % Stride = 0
+             /\ InDomain(BS[bi], TS[ti], AS[ai], KS[ki])
+             /\ sid = i /\ T = Shape(BS[bi], TS[ti], AS[ai], KS[ki])
+        /\ ~CrossesUnit(T)
         /\ mem = InitMem(T) /\ prev = mem /\ last = NoStep /\ n = 0 /\ ps = Paths(T) /\ vm = VMask(T)
 
 LoadLv(m, p) == IF IsBits(p) THEN GetBits(m.obj, p.pos, Width(p), p.ty.sg)
@@ -387,7 +389,11 @@ Frame ==
               \A k \in 0..7 : LET i == (j - 1) * 8 + k IN
                  (i < last.pos \/ i >= last.pos + last.w) => Bit(mem.obj, i) = Bit(prev.obj, i)
 FormsAgree ==
-  \A pi \in DOMAIN ps : \A f \in Forms : EvalForm(f, T, ps[pi]) = Lv(ps[pi]).off
+  \A pi \in DOMAIN ps : \A f \in Forms :
+     LET p == ps[pi]
+         a == EvalForm(f, T, p) IN
+     IF p.ty.k = "bf" THEN a * 8 <= p.pos /\ p.pos + p.ty.w <= (a + p.ty.sz) * 8 /\ a + p.ty.sz <= T.sz + p.ty.sz - 1
+     ELSE a = p.pos \div 8
 (* distinct leaves of a struct occupy disjoint bits, inside the object, aligned unless packed *)
 RECURSIVE NoUnionOn(_, _, _)
 NoUnionOn(ty, hops, k) == IF k > Len(hops) THEN TRUE
@@ -398,8 +404,6 @@ PathsDisjoint ==
   /\ \A i, j \in DOMAIN ps :
        (i < j /\ ps[i].ty.k # "agg" /\ ps[j].ty.k # "agg" /\ NoUnionOn(T, ps[i].hops, 1) /\ NoUnionOn(T, ps[j].hops, 1))
          => (ps[i].pos + Width(ps[i]) <= ps[j].pos \/ ps[j].pos + Width(ps[j]) <= ps[i].pos)
-  /\ \A i \in DOMAIN ps : ps[i].ty.k = "bf" =>
-       (ps[i].pos % (ps[i].ty.sz * 8)) + ps[i].ty.w <= ps[i].ty.sz * 8          \* inside one storage unit
 (* Level I byte loop = Level A copy on every value byte, and touches nothing else *)
 CopyRefines == n = 0 =>
   LET a == CopyA(mem).obj
